@@ -17,7 +17,7 @@ Require Import Grits.Base Grits.Forms Grits.Expand Grits.TcTop Grits.Runtime.
 Require Import Grits.RuntimeFootprint Grits.proofs.RuntimeFacts Grits.proofs.Diamond Grits.proofs.Determinism Grits.proofs.AsyncSync Grits.proofs.RuntimeCheckFacts Grits.proofs.ForkJoin Grits.proofs.DeterminismExamples.
 Require Import Grits.Tc Grits.spec.RtTyping Grits.spec.Topo Grits.proofs.RtSafety Grits.proofs.RtInit Grits.proofs.RtTheorems Grits.proofs.DeterminismTyped Grits.proofs.TopoLin Grits.proofs.TopoStep Grits.proofs.TopoReach Grits.proofs.InitLinear.
 Require Import Grits.spec.SynOk Grits.proofs.RtTcSyn Grits.proofs.RtTheoremsTc Grits.proofs.DeterminismTc.
-Require Import Grits.proofs.LinBridge Grits.proofs.InitAccept Grits.proofs.DeterminismAccept.
+Require Import Grits.proofs.LinBridge Grits.proofs.InitAccept Grits.proofs.DeterminismAccept Grits.proofs.TopoStepExt.
 
 Theorem C03_step_is_move : forall md D F c ch, step md D F c ch = sres_of c (move_of md D F c ch).
 Proof. exact step_move. Qed.
@@ -478,6 +478,41 @@ Print Assumptions C03_exec_check_run.
 Print Assumptions C03_demo_two_orders_async.
 Print Assumptions C03_demo_two_orders_sync.
 Print Assumptions C03_demo_diamond_nonvacuous.
+(* ---- stage 4, outside the core fragment: per-rule lemmas for the forwards the interpreter creates.
+   Topo is preserved by the `drop` step (a droppable forward on a fresh channel is spawned) and by
+   the `split` step (a forward providing the two fresh channels is spawned), for a typed configuration
+   whose acting process has one provider and an affine body; the GC request of a droppable forward
+   preserves Topo when the forward's provider is referenced by nobody, which is how `drop` makes it.
+   Not covered: DUP, the receipt of a GC request, a droppable positive forward receiving. *)
+Theorem C03_topo_drop_step : forall D F teq, teq_laws D teq -> forall Δ c p n0 cl k0 nx md c',
+  cfg_typed D F teq Δ c -> Topo c -> ns_ok c ->
+  procs c !! p = Some (Proc [n0] (FDrop cl k0) nx) -> aff None (FDrop cl k0) -> is_np md = false ->
+  step md D F c (Run p) = SStep c' -> Topo c'.
+Proof. exact topo_drop_step. Qed.
+
+Theorem C03_topo_split_step : forall D F teq, teq_laws D teq -> forall Δ c p n0 x y fr k0 nx md c',
+  cfg_typed D F teq Δ c -> Topo c -> ns_ok c ->
+  procs c !! p = Some (Proc [n0] (FSplit x y fr k0) nx) -> aff None (FSplit x y fr k0) ->
+  step md D F c (Run p) = SStep c' -> Topo c'.
+Proof. exact topo_split_step. Qed.
+
+Theorem C03_drop_child_unref : forall D F teq, teq_laws D teq -> forall Δ c p n0 cl k0 nx md c',
+  cfg_typed D F teq Δ c -> ns_ok c ->
+  procs c !! p = Some (Proc [n0] (FDrop cl k0) nx) -> is_np md = false ->
+  step md D F c (Run p) = SStep c' ->
+  (exists cn, procs c' !! (p ++ [(S nx + 1)%nat]) = Some (Proc [cn] (FFwd (mkName (ident cl) true (pol cl) (nty cl) None) cl true) 0) /\
+              chan cn = Some (p ++ [nx])) /\
+  forall o', obj_in c' o' -> p ++ [nx] ∉ refs o'.
+Proof. exact drop_child_unref. Qed.
+
+Theorem C03_topo_send_gc : forall D c p pp k m st,
+  Topo c -> LinCfg c -> procs c !! p = Some pp -> pr_provs pp <> [] ->
+  action_of Async D pp = ASend k m ->
+  (m_rule m <> RGC \/ forall j o2, j ∈ cids_of (pr_provs pp) -> obj_in c o2 -> j ∉ refs o2) ->
+  chans c !! k = Some st -> ch_closed st = false -> ch_buf st = None ->
+  Topo (del_proc (put_msg c k st (Some m)) p) /\ LinCfg (del_proc (put_msg c k st (Some m)) p).
+Proof. exact topo_send_gc. Qed.
+
 Print Assumptions C03_init_linear_accept.
 Print Assumptions C03_topo_runs_core_accept.
 Print Assumptions C03_determinism_core_accept.
@@ -485,3 +520,7 @@ Print Assumptions C03_async_sync_agree_core_accept.
 Print Assumptions C03_core_accept_sound.
 Print Assumptions C03_example_core_accept.
 Print Assumptions C03_linear_affr.
+Print Assumptions C03_topo_drop_step.
+Print Assumptions C03_topo_split_step.
+Print Assumptions C03_drop_child_unref.
+Print Assumptions C03_topo_send_gc.
